@@ -70,6 +70,7 @@ static std::string show_hist(const rtosc::UndoHistory &h)
 struct Object {
     char b; int i; int j; float x; float y; bool t; int o;
     float a[3]; char n[4]; bool g[2]; int q[3]; char p[4];
+    int r; int r_sets;
     Object() { memset((void*)this, 0, sizeof(*this)); }
 };
 #define rObject Object
@@ -86,6 +87,8 @@ static rtosc::Ports e2e_ports = {
     rArrayT(g, 2, "g"),
     rArrayOption(q, 3, rOptionsBound(lo, mid, hi), "q"),
     rParams(p, 4, "p"),                                       // "p#4::i" and the alias "p:"
+    {"r::i:c:S", rProp(parameter) rProp(enumerated) rOptions(ra, rb, rc) rLinear(0, 2) rDoc("r"), NULL,
+        rCOptionCb(obj->r, (obj->r_sets++, obj->r = var))},   // option over getcode / setcode, counting setter
 };
 #undef rObject
 
@@ -144,6 +147,7 @@ static std::string show_obj(const Object &ob)
     for(int k = 0; k < 2; ++k) o << "," << (int)ob.g[k];
     for(int k = 0; k < 3; ++k) o << "," << ob.q[k];
     for(int k = 0; k < 4; ++k) o << "," << (int)ob.p[k];
+    o << "," << ob.r << "," << ob.r_sets;
     return o.str();
 }
 
